@@ -184,6 +184,28 @@ def _check_mono(run, mod, Q, cfg, ys):
                     guards.append((n, l, ("last", _last_of(r)), op, False))
                 elif _last_of(l) and _value_expr_vars(r) & fresh:
                     guards.append((n, r, ("last", _last_of(l)), op, True))
+        # `any(v <= seen for seen in result)`: the values collected so far
+        # were each accepted above all earlier ones, so the list ascends and
+        # the test is the comparison with its last element
+        for n in cfg.reachable:
+            if n.id in body and n.kind == "test" and isinstance(
+                    n.ast, ast.Call) and isinstance(
+                        n.ast.func, ast.Name) and n.ast.func.id == "any" \
+                    and len(n.ast.args) == 1 and isinstance(
+                        n.ast.args[0], (ast.GeneratorExp, ast.ListComp)) \
+                    and len(n.ast.args[0].generators) == 1 and not \
+                    n.ast.args[0].generators[0].ifs:
+                g_ = n.ast.args[0].generators[0]
+                e_ = n.ast.args[0].elt
+                if isinstance(g_.target, ast.Name) and isinstance(
+                        g_.iter, ast.Name) and isinstance(
+                            e_, ast.Compare) and len(e_.ops) == 1 and \
+                        isinstance(e_.ops[0], (ast.LtE, ast.Lt)) and \
+                        isinstance(e_.comparators[0], ast.Name) and \
+                        e_.comparators[0].id == g_.target.id and \
+                        _value_expr_vars(e_.left) & fresh:
+                    guards.append((n, e_.left, ("last", g_.iter.id, "any"),
+                                   e_.ops[0], False))
         nsites += 1
         key = "%s#loop@%s" % (Q, _loop_key(head))
         if not guards and any(
@@ -243,8 +265,10 @@ def _check_mono(run, mod, Q, cfg, ys):
                 lst = tracker[1]
                 emp = _emptiness_test(tn, lst)
                 init = _list_init(cfg, lst, body)
-                init_ok = emp is not None and init == "[]" and \
-                    _only_appends(cfg, lst, body, vexpr)
+                # (the quantified form needs no emptiness test: any() over
+                # an empty list is False)
+                init_ok = (emp is not None or len(tracker) > 2) and \
+                    init == "[]" and _only_appends(cfg, lst, body, vexpr)
                 if emp is not None:
                     ef = [m for (l, m) in emp.succ if l == "F"]
                     upd = upd and all(_must_assign(m, head, tracker, vexpr)
